@@ -89,8 +89,15 @@ def gen_design(rng, hist):
                     return None
                 self.tg.used = set()
                 return self.tg.target(d)
-        items = gen_prog.gen_items(rng, g_comb, g_sync, Fresh(combT), Fresh(sync_bases), rng.randint(1, 2), hist,
-                                   allow_fsm=False, n=rng.randint(2, 4))
+        # the module's logic may sit in several synchronous domains at once (each with its own registers)
+        tg_by_dom = {"comb": Fresh(combT), "sync": Fresh(sync_bases)}
+        for extra in D.domnames[1:]:
+            if rng.random() < 0.35:
+                more = [mk("s", 10 + j, reset_less=rng.random() < 0.3) for j in range(rng.randint(1, 2))]
+                D.targets += more
+                tg_by_dom[extra] = Fresh(more)
+        items = gen_prog.gen_items(rng, g_comb, g_sync, None, None, rng.randint(1, 2), hist,
+                                   allow_fsm=False, n=rng.randint(2, 4), tg_by_dom=tg_by_dom)
         return items
 
     def wrap(elab, path_wrappers):
@@ -187,10 +194,10 @@ def ser_design(D):
                 ws.append(f"(rename {domidx[w[1]]} {domidx[w[2]]})")
             else:
                 ws.append(f"({w[0]} {domidx[w[1]]} {ser_value(w[2], sigidx)})")
-        for dom in ("comb", "sync"):
+        for dom in ["comb"] + D.domnames:
             prog = gen_prog.ser_prog(leaf["items"], dom, sigidx)
             if prog.strip():
-                d = "comb" if dom == "comb" else domidx["sync"]
+                d = "comb" if dom == "comb" else domidx[dom]
                 leaves.append(f"(leaf {d} (wrappers {' '.join(ws)}) (prog {prog}))")
     head = f"(c03 {ctx} {inits} {rl} {doms} (actual {' '.join(procs)}) (leaves {' '.join(leaves)})"
     return head, sigs, sigidx
